@@ -484,7 +484,7 @@ pub(crate) mod pwire {
     }
 }
 
-fn c01_wire_pawn(white: bool) {
+fn c01_wire_pawn(white: bool, last_rank_file: u8) {
     let x = any_disjoint();
     let a = any_aux(crate::verif_ref::vany());
     let board = Board::verif_from_raw(&x, &a);
@@ -494,7 +494,8 @@ fn c01_wire_pawn(white: bool) {
     // S1 stays off the promotion rank, S2 lands on it. The destination squares are concrete so that the
     // partition in generate_pawn_moves has concrete list lengths (SmallVecs of symbolic length are what
     // makes CBMC's encoding explode); origins and capture tags stay symbolic.
-    let (s1, s2) = if white { ((s1.0, 20u8, s1.2), (s2.0, 59u8, s2.2)) } else { ((s1.0, 43u8, s1.2), (s2.0, 3u8, s2.2)) };
+    // (the file of the last-rank destination is a harness parameter: corner and centre files are separate harnesses)
+    let (s1, s2) = if white { ((s1.0, 20u8, s1.2), (s2.0, 56 + last_rank_file, s2.2)) } else { ((s1.0, 43u8, s1.2), (s2.0, last_rank_file, s2.2)) };
     unsafe {
         pwire::PM = crate::verif_ref::vany();
         pwire::PA = crate::verif_ref::vany();
@@ -549,24 +550,28 @@ fn c01_wire_pawn(white: bool) {
 }
 
 macro_rules! pwire_harness {
-    ($name:ident, $white:expr) => {
+    ($name:ident, $white:expr, $file:expr) => {
         #[kani::proof]
         #[kani::unwind(10)]
         #[kani::stub(::smallvec::SmallVec::reserve_one_unchecked, stub_no_spill)]
         #[kani::stub(::smallvec::SmallVec::spilled, crate::move_generator::verif_never_spilled)]
         #[kani::stub(::smallvec::SmallVec::try_grow, crate::move_generator::verif_no_grow)]
+        #[kani::stub(::smallvec::SmallVec::append, crate::move_generator::VerifSv::append)]
         #[kani::stub(crate::move_generator::targets::generate_pawn_move_targets, crate::move_generator::kani_verif::pwire::move_targets)]
         #[kani::stub(crate::move_generator::targets::generate_pawn_attack_targets, crate::move_generator::kani_verif::pwire::attack_targets)]
         #[kani::stub(crate::move_generator::expand_piece_targets, crate::move_generator::kani_verif::pwire::expand)]
         #[kani::stub(crate::move_generator::generate_en_passant_moves, crate::move_generator::kani_verif::pwire::en_passant)]
-        #[kani::stub(::smallvec::SmallVec::append, crate::move_generator::VerifSv::append)]
         fn $name() {
-            c01_wire_pawn($white);
+            c01_wire_pawn($white, $file);
         }
     };
 }
-pwire_harness!(c01_wire_pawn_w, true);
-pwire_harness!(c01_wire_pawn_b, false);
+pwire_harness!(c01_wire_pawn_w, true, 3);
+pwire_harness!(c01_wire_pawn_b, false, 3);
+pwire_harness!(c01_wire_pawn_w_a, true, 0);
+pwire_harness!(c01_wire_pawn_w_h, true, 7);
+pwire_harness!(c01_wire_pawn_b_a, false, 0);
+pwire_harness!(c01_wire_pawn_b_h, false, 7);
 
 // -------------------------------------------------------------------------------------------------
 // M5 / C01.leaper: knight and king tables equal the reference for every square
@@ -867,6 +872,7 @@ list_harness!(c01_leaper_knight_b, 66, c01_leaper(false, true, 3));
 list_harness!(c01_leaper_king_w, 66, c01_leaper(true, false, 3));
 list_harness!(c01_leaper_king_b, 66, c01_leaper(false, false, 3));
 list_harness!(c01_leaper1_knight_w, 66, c01_leaper(true, true, 1));
+list_harness!(c01_leaper2_knight_b, 66, c01_leaper(false, true, 2));
 list_harness!(c01_leaper1_king_b, 66, c01_leaper(false, false, 1));
 
 // ---- A1.union: generate_attack_targets ORs the target sets of its four builders, all for the requested colour
